@@ -368,6 +368,16 @@ func (v *FnV) spIdent(st *State, name string, sc *Scope) Value {
 		return Value{S: "4294967295"}
 	case "RuneError":
 		return Value{T: tRune, S: "65533"}
+	case "returned":
+		if len(v.returned) > 0 {
+			return v.returned[0]
+		}
+		sfail("returned is only available in exit clauses and in deferred literals")
+	case "ncalls":
+		if st.ghost == nil {
+			sfail("ncalls: the function under verification has no `log` directive")
+		}
+		return Value{T: tInt, S: st.ghost["lgN"]}
 	}
 	if sc.pkg != nil {
 		var obj types.Object
@@ -599,6 +609,9 @@ func (v *FnV) spCall(st *State, e *SExpr, sc *Scope) Value {
 			sfail("%s: missing argument", name)
 		}
 		return v.sp(st, args[i], sc)
+	}
+	if val, ok := v.spLog(st, name, e, sc); ok {
+		return val
 	}
 	switch name {
 	case "old":
